@@ -725,9 +725,15 @@ func Main(ck *Check, tier string, seed int64, worker string, replay string) int 
 		"wall_s":      time.Since(start).Seconds(),
 		"violations":  newViol,
 	}
-	os.MkdirAll(filepath.Join(VerifDir(), "evidence"), 0o755)
+	// evidence/ holds what the checks found on /repo itself; a run against another copy of the repository
+	// (seeded changes, tools/seedcheck.sh and tools/seedmatrix.sh set VERIF_REPO) writes next to it instead
+	evDir := "evidence"
+	if r := os.Getenv("VERIF_REPO"); r != "" && r != "/repo" {
+		evDir = filepath.Join(".cache", "evidence-other-repository")
+	}
+	os.MkdirAll(filepath.Join(VerifDir(), evDir), 0o755)
 	b, _ := json.MarshalIndent(ev, "", " ")
-	os.WriteFile(filepath.Join(VerifDir(), "evidence", ck.ID+".json"), b, 0o644)
+	os.WriteFile(filepath.Join(VerifDir(), evDir, ck.ID+".json"), b, 0o644)
 	fmt.Printf("%s %s: evaluations=%d distinct_nontrivial=%d states=%d transitions=%d outcomes=%d known=%d new_violation_classes=%d exhaustive=%v wall=%.1fs\n",
 		ck.ID, tier, evals, distinctNT, len(states), trans, len(outcomes), len(knownHit), newViol, exhaustive, time.Since(start).Seconds())
 	if reported > 0 {
